@@ -147,7 +147,7 @@ func init() {
 					}
 					cases = append(cases, &stallCase{name: "stall", phase: phase, offset: off, mode: "stall", ct: cf[0], st: cf[1], rt: cf[2]})
 				}
-				for _, m := range []string{"trickle", "endless-zero", "endless-random", "oversize"} {
+				for _, m := range []string{"trickle", "block-trickle", "empty-frames", "endless-zero", "endless-random", "oversize"} {
 					cases = append(cases, &stallCase{name: m, phase: phase, mode: m, ct: cf[0], st: cf[1], rt: cf[2]})
 				}
 			}
@@ -210,9 +210,16 @@ func init() {
 					} else {
 						reply = frameBytes(itemBytes(uint32(rscp.INFO_SERIAL_NUMBER), 13, []byte("0123456789012345678901234567890")), true, 1, 2)
 					}
-					ct := make([]byte, len(reply))
-					pc.enc.CryptBlocks(ct, reply)
+					// encrypt lazily: the chaining state must follow what is really sent
+					var ct []byte
+					encReply := func() {
+						ct = make([]byte, len(reply))
+						pc.enc.CryptBlocks(ct, reply)
+					}
 					if reqNo == c.phase {
+						if c.mode == "stall" || c.mode == "trickle" {
+							encReply()
+						}
 						switch c.mode {
 						case "stall":
 							if c.offset > 0 {
@@ -226,6 +233,29 @@ func init() {
 									return
 								}
 								time.Sleep(40 * time.Millisecond)
+							}
+						case "block-trickle":
+							// whole cipher blocks of a frame that never completes (announces 60 000 bytes), one every third of the time-out
+							big := frameBytes(make([]byte, 60000), true, 1, 2)
+							ob := make([]byte, len(big))
+							pc.enc.CryptBlocks(ob, big)
+							for i := 0; i+32 <= len(ob); i += 32 {
+								if _, err := b.Write(ob[i : i+32]); err != nil {
+									return
+								}
+								time.Sleep(c.rt / 3)
+							}
+							return
+						case "empty-frames":
+							// well-formed, correctly chained frames without any item, one every third of the time-out
+							for {
+								ef := frameBytes(nil, true, 1, 2)
+								ob := make([]byte, len(ef))
+								pc.enc.CryptBlocks(ob, ef)
+								if _, err := b.Write(ob); err != nil {
+									return
+								}
+								time.Sleep(c.rt / 3)
 							}
 						case "endless-zero", "endless-random":
 							blk := make([]byte, 32)
@@ -253,6 +283,7 @@ func init() {
 							return
 						}
 					}
+					encReply()
 					b.Write(ct)
 					reqNo++
 				}
@@ -303,13 +334,16 @@ func init() {
 			slack := 1200 * time.Millisecond
 			if c.res == "blocked" || c.took > c.bound+slack {
 				prop = fmt.Sprintf("FAIL C10 call against a peer that does `%s` in phase %d at offset %d took %v (result %s), bound %v", c.mode, c.phase, c.offset, c.took.Round(time.Millisecond), c.res, c.bound)
+				if c.res == "blocked" {
+					prop += " ;; FAIL C02 the client hangs on what a peer sends: " + fmt.Sprintf("`%s` in phase %d at offset %d", c.mode, c.phase, c.offset)
+				}
 			} else if c.res == "panic" {
 				prop = "FAIL C10 client panics"
 			}
 			eff, _ := rscp.VerifCheckConfig(rscp.ClientConfig{Address: "a", Username: "u", Password: "p", Key: "k", ConnectionTimeout: c.ct, SendTimeout: c.st, ReceiveTimeout: c.rt})
 			cw.add(fmt.Sprintf("bound %d %d %d", int64(c.ct), int64(c.st), int64(c.rt)),
 				fmt.Sprintf("bound=%d", int64(eff.ConnectionTimeout)+2*int64(eff.SendTimeout)+2*int64(eff.ReceiveTimeout)),
-				fmt.Sprintf("N stall %s phase=%d offset=%d took=%dms", c.name, c.phase, c.offset, c.took.Milliseconds()), prop)
+				fmt.Sprintf("N stall %s phase=%d offset=%d took=%dms res=%s", c.name, c.phase, c.offset, c.took.Milliseconds(), c.res), prop)
 		}
 	}
 }
